@@ -1004,3 +1004,25 @@ def header_keys_lowercase(run, fns, rule='R3', instance='header-key-case'):
                           'the header map is addressed with the key "%s", but parse_request stores header names lower-cased: the look-up never matches (a request that does carry the header is treated as lacking it)' % v,
                           'lower-case key, as stored by parse_request')
     return n
+
+
+def int_products(run, fns, rule='R11', instance='product-evaluated-in-int'):
+    """A product of two run-time values evaluated in a 32-bit integer type: segment sizes, byte counts and window sizes
+    are bounded only by the configured MTU (up to 65535 and beyond), and 46341 * 46341 already exceeds INT_MAX - signed
+    overflow is undefined, in practice the result goes negative.  Accepted when one factor is a constant or the product is
+    evaluated in a 64-bit or floating type.  Returns the number of non-constant products examined."""
+    n = 0
+    for fn in fns:
+        for m in fn.all_nodes():
+            if not (m['k'] == 'bin' and m['op'] in ('*', '*=')):
+                continue
+            if q.int_value(m['lhs']) is not None or q.int_value(m['rhs']) is not None:
+                continue
+            n += 1
+            ty = fn.cty(m) if 't' in m else ''
+            narrow = ty.replace('const ', '').strip() in ('int', 'unsigned int', 'short', 'unsigned short', 'unsigned', 'signed int')
+            run.touch(fn)
+            run.check(not narrow, rule, instance, '%s: %s' % (q.top_function(run.fx, fn).norm, q.render(fn, m)[:60]), fn.loc(m),
+                      'the product %s of two run-time values is evaluated in %s: with factors bounded only by the path MTU (46341 and above) it overflows - undefined behaviour, in practice a negative result (a congestion window that shrinks on every ACK until the transfer stalls)' % (q.render(fn, m)[:60], ty),
+                      'evaluated in %s' % ty)
+    return n
